@@ -204,7 +204,7 @@ def fas2values(fas, dt):
     a[n // 2 + 1:] = np.flip(np.conj(fas[1:]), axis=0)
     a /= dt
     s = np.fft.ifft(a)
-    npts = int(2 ** (np.log(n) / np.log(2)))
+    npts = n  # int(2 ** (np.log(n) / np.log(2))) rounded down for n = 14, 18, 28, ...
     s = s[:npts]
     return s
 
@@ -229,7 +229,7 @@ def fas2signal(fas, dt, stype="signal"):
     a[n // 2 + 1:] = np.flip(np.conj(fas[1:]), axis=0)
     a /= dt
     s = np.fft.ifft(a)
-    npts = int(2 ** (np.log(n) / np.log(2)))
+    npts = n  # int(2 ** (np.log(n) / np.log(2))) rounded down for n = 14, 18, 28, ...
     s = s[:npts]
     if stype == 'signal':
         return Signal(s, dt)
